@@ -168,7 +168,7 @@ CHECKS = {
         technique="Lean 4 simulation (both directions) between the task.c model and an independent life-cycle spec + differential runs",
         design="DESIGN.md §5 C07"),
     "C08": dict(
-        text=("Theorems (Props/C08.lean, 22) over the transcription of chan_push/chan_pop/chan_flush: a history of enter/leave "
+        text=("Theorems (Props/C08.lean, 26) over the transcription of chan_push/chan_pop/chan_flush: a history of enter/leave "
               "events on a channel is accepted by the channel machinery IFF it is properly nested (leave matches the "
               "innermost open region, depth <= limit, and without ALLOW_DUP no re-entry of the innermost region) "
               "(nesting_accept_iff, unbounded length, any depth limit); hence every properly nested non-re-entering history "
@@ -179,7 +179,7 @@ CHECKS = {
               "every value has a PCF label, actions/channel types are consistent, and the tables still equal the committed "
               "documented mapping event->(channel, action, value, label) (table_matches_documented) and the tracking modes of every "
               "model channel (thread row shows the value always / while running / while active; CPU row = running thread) still "
-              "equal the committed documented modes (track_modes_match_documented, Spec/TrackModes.lean). Tie: regenerated tables; "
+              "equal the committed documented modes (track_modes_match_documented, Spec/TrackModes.lean); a thread the kernel model marked out of the CPU - in whatever thread state - gets every nOS-V table event and every ovni event refused (out_of_cpu_rejects, out_of_cpu_rejects_ovni, with the regenerated facts out_of_cpu_facts: KCO sets the flag unconditionally). Tie: regenerated tables; "
               "e2e: per model random nested words with single mismatches, wrong thread states, open regions at the end and "
               "depths 511..513, real ovniemu -l vs the Lean reference emulator (verdict, failing event, every model row) and "
               "vs an independent Python oracle that recomputes every row from the history with the documented mapping and the documented tracking modes."),
